@@ -501,6 +501,8 @@ def reconfigure(
 
     If *key* is provided, triples are sorted according to the key.
     """
+    if top is None:
+        top = g.top  # sorting the triples must not change an implicit top
     p = copy.deepcopy(g)
     for epilist in p.epidata.values():
         epilist[:] = [
